@@ -168,8 +168,9 @@ def r3_handler(ctx, rep, ci):
             want = Lin.of_term(("attr", ("exc", "PartialResponseException", exname), "expected")) - Lin.of_term(("attr", ("exc", "PartialResponseException", exname), "length"))
             got = s.env.get("self._partial_missing")
             ok_missing = isinstance(got, Lin) and got == want
+            from ..astutil import expand_locals as _xl
             rearm = any(ev.kind == "call" and "call_later" in tags(ev) and callback_is(ev.node, "_timeout_mechanism") and ev.node.args
-                        and norm(ev.node.args[0]) == "self.timeout" for ev in after)
+                        and norm(_xl(ev.node.args[0], p.fn_at(p.events.index(ev), cb).node)) == "self.timeout" for ev in after)
             kept = any(ev.kind == "stmt" and "store:_timer" in tags(ev) for ev in after)
             rep.check(ok_data, "C07.R3", "store-fragment:%s" % cb.short, cb.loc(h), "the received bytes are held as the fragment",
                       bad="%s: the partial-response handler does not keep the received bytes (%s) as the fragment" % (cb.short, validated))
